@@ -84,7 +84,11 @@ def make_case(ctx, idx):
     r = case_rng(ctx.seed, ID, idx)
     big = r.random() < 0.5
     ops = gen.Gen(r, gen.profile("c06", max_steps=60 if big else 8, max_bundles=1, ns_uris=gen.NS_URIS_ASCII)).program(steps=60 if big else None)
-    return {"ops": ops, "fmt": FORMATS[idx % len(FORMATS)], "name": NAMES[(idx // len(FORMATS)) % len(NAMES)], "present": (idx // 2) % 2 == 0,
+    fmt = FORMATS[idx % len(FORMATS)]
+    # serializer options travel with the call: "exact" means the bytes this very call would hand to a stream
+    kw = r.choice({"json": [{}, {"indent": 2}, {"sort_keys": True, "indent": 0}], "xml": [{}, {"force_types": True}], "provn": [{}],
+                   "rdf": [{}, {"rdf_format": "nt"}, {"rdf_format": "trig"}]}[fmt])
+    return {"ops": ops, "fmt": fmt, "name": NAMES[(idx // len(FORMATS)) % len(NAMES)], "present": (idx // 2) % 2 == 0, "kw": kw,
             "oslevel": (ctx.tier == "thorough" and idx % 3 == 0) or idx % 15 == 0}
 
 
@@ -164,8 +168,8 @@ class Injected(Exception):
 
 
 class FaultyStream:
-    def __init__(self, real, fail_at, counter):
-        self._r, self._k, self._c = real, fail_at, counter
+    def __init__(self, real, fail_at, counter, interrupt=False):
+        self._r, self._k, self._c, self._interrupt = real, fail_at, counter, interrupt
 
     def write(self, data):
         self._c[0] += 1
@@ -173,6 +177,8 @@ class FaultyStream:
             half = data[: len(data) // 2]
             if half:
                 self._r.write(half)          # a short write before the failure, as a full disk would do
+            if self._interrupt:
+                raise KeyboardInterrupt("injected at write %d" % self._k)   # not an Exception: Ctrl-C / a signal handler raising
             raise OSError(28, "No space left on device (injected at write %d)" % self._k)
         return self._r.write(data)
 
@@ -228,10 +234,13 @@ def quota_fdopen(quota, counter):
     return fdopen
 
 
-def reference_bytes(doc, fmt):
+def reference_bytes(doc, fmt, kw=None):
     b = io.BytesIO()
-    doc.serialize(b, format=fmt)
+    doc.serialize(b, format=fmt, **(kw or {}))
     return b.getvalue()
+
+
+RDF_SYNTAX = ["trig"]      # syntax of the RDF texts of the case being judged (set per case)
 
 
 def content_key(fmt, data):
@@ -246,7 +255,7 @@ def content_key(fmt, data):
             return {k: set(v) for k, v in nr.read(data.decode("utf-8"))[0].items()}
         import rdflib
         g = rdflib.ConjunctiveGraph()
-        g.parse(data=data.decode("utf-8"), format="trig")
+        g.parse(data=data.decode("utf-8"), format=RDF_SYNTAX[0])
         return g
     except Exception:
         return None
@@ -272,8 +281,11 @@ def same_serialisation(fmt, got, ref, doc):
 def run_inprocess(ctx, case, problems):
     doc = interp.run(case["ops"]).doc
     fmt, present = case["fmt"], case["present"]
+    kw = case.get("kw") or {}
+    RDF_SYNTAX[0] = kw.get("rdf_format", "trig")
+    ctx.count("writer_options.%s.%s" % (fmt, ",".join("%s=%s" % x for x in sorted(kw.items())) or "none"))
     try:
-        ref = reference_bytes(doc, fmt)
+        ref = reference_bytes(doc, fmt, kw)
     except Exception as e:
         ctx.count("skipped.unserialisable.%s.%s" % (fmt, type(e).__name__))
         return 0
@@ -297,6 +309,8 @@ def run_inprocess(ctx, case, problems):
             try:
                 if fault and fault[0] == "write":
                     os.fdopen = lambda fd, *a, **k: FaultyStream(orig_fdopen(fd, *a, **k), fault[1], writes)
+                elif fault and fault[0] == "interrupt":
+                    os.fdopen = lambda fd, *a, **k: FaultyStream(orig_fdopen(fd, *a, **k), fault[1], writes, interrupt=True)
                 elif fault and fault[0] == "quota":
                     os.fdopen = quota_fdopen(fault[1], writes)
                 else:
@@ -305,13 +319,21 @@ def run_inprocess(ctx, case, problems):
                     def boom(*a, **k):
                         raise OSError(5, "Input/output error (injected at the final move)")
                     os.replace = shutil.move = os.rename = boom
+                if fault and fault[0] == "move_interrupt":
+                    def boom2(*a, **k):
+                        raise KeyboardInterrupt("injected at the final move")
+                    os.replace = shutil.move = os.rename = boom2
                 if fault and fault[0] == "line":
                     mon = LineFailpoint(pm.ProvDocument.serialize, fault[1])
                     mon.start()
                 outcome = "ok"
                 try:
-                    doc.serialize(arg, format=fmt)
+                    doc.serialize(arg, format=fmt, **kw)
                 except Injected:
+                    outcome = "failed"
+                except KeyboardInterrupt as e:
+                    if "injected" not in str(e):
+                        raise
                     outcome = "failed"
                 except OSError as e:
                     outcome = "failed" if "injected" in str(e) else "oserror:%s" % e
@@ -379,6 +401,12 @@ def run_inprocess(ctx, case, problems):
             if problems:
                 return injected
     attempt(("move", 1))
+    # the same points hit by an exception that is not an Exception (KeyboardInterrupt): first, middle and last write, and the move
+    for k in sorted({1, (nwrites + 1) // 2, nwrites}):
+        if k >= 1 and not problems:
+            attempt(("interrupt", k))
+    if not problems:
+        attempt(("move_interrupt", 1))
     for line in LineFailpoint.lines_of(pm.ProvDocument.serialize):
         if problems:
             break
@@ -449,7 +477,7 @@ import pv
 from pv import interp
 doc = interp.run(json.load(open(%(prog)r))).doc
 os.chdir(%(cwd)r)
-doc.serialize(%(arg)r, format=%(fmt)r)
+doc.serialize(%(arg)r, format=%(fmt)r, **%(kw)r)
 """
 
 
@@ -459,6 +487,7 @@ def run_oslevel(ctx, case, problems):
         return 0
     fmt = case["fmt"]
     injected = 0
+    RDF_SYNTAX[0] = (case.get("kw") or {}).get("rdf_format", "trig")
     PREV = b"previous content that must survive\n" * 40
     for fs_name, base in (("same_fs", ctx.root), ("other_fs", ctx.shm)):
         if base is None:
@@ -473,7 +502,7 @@ def run_oslevel(ctx, case, problems):
             arg, dest = resolve_name(case["name"] if case["name"] not in ("file:REL",) else "plain.out", box)
             script = os.path.join(work, "child.py")
             with open(script, "w") as f:
-                f.write(CHILD % {"lib": os.path.join(env.VERIF, "lib"), "src": env.PROV_SRC, "prog": prog, "cwd": box, "arg": arg, "fmt": fmt})
+                f.write(CHILD % {"lib": os.path.join(env.VERIF, "lib"), "src": env.PROV_SRC, "prog": prog, "cwd": box, "arg": arg, "fmt": fmt, "kw": case.get("kw") or {}})
             e = dict(os.environ)
             e["TMPDIR"] = os.path.join(work, "tmp")
             os.makedirs(e["TMPDIR"], exist_ok=True)
